@@ -755,3 +755,146 @@ func c06ContainerRun(c *vcore.Ctx) *vcore.Violation {
 	c.Probe("container_descriptor_table_checked")
 	return nil
 }
+
+// c04ContainerRun: the container path of C04. A container is built with a drawn identity (credential generator
+// with host ids, container ids customised independently of each other), host and domain name and work
+// directory; a program started in it reports its state and creates a file, whose owner is then read from
+// outside (through /proc/<init>/root): the ids the *caller asked for* are the ones of the credential generator.
+func c04ContainerRun(c *vcore.Ctx) *vcore.Violation {
+	const prop = "C04"
+	src := c.Src
+	root, err := os.MkdirTemp(kDir, "c04root")
+	if err != nil {
+		vcore.Harnessf("mkdir: %v", err)
+	}
+	os.Chmod(root, 0755)
+	defer os.Remove(root)
+	mb := mount.NewBuilder().WithBind(filepath.Dir(probePath), "probe", true).WithTmpfs("w", "").WithTmpfs("tmp", "").WithBind("/dev/null", "dev/null", false).WithProc()
+	b := container.Builder{Root: root, Mounts: mb.FilterNotExist().Mounts}
+	var want struct {
+		hostUID, hostGID, cUID, cGID int
+		host, domain, cwd            string
+	}
+	want.hostUID, want.hostGID = -1, -1
+	if src.Bool(3, 4, "credgen") {
+		want.hostUID, want.hostGID = 10000+src.Int(100, "uid"), 10000+src.Int(100, "gid")
+		b.CredGenerator = credGen{uint32(want.hostUID), uint32(want.hostGID)}
+	}
+	if src.Bool(1, 2, "cuid") {
+		want.cUID = 1500 + src.Int(500, "cuidv")
+		b.ContainerUID = want.cUID
+	}
+	if src.Bool(1, 2, "cgid") {
+		want.cGID = 1500 + src.Int(500, "cgidv")
+		b.ContainerGID = want.cGID
+	}
+	if src.Bool(1, 2, "hostname") {
+		want.host = fmt.Sprintf("h%d", src.Int(1000, "hostv"))
+		b.HostName = want.host
+	}
+	if src.Bool(1, 2, "domainname") {
+		want.domain = fmt.Sprintf("d%d.example", src.Int(1000, "domv"))
+		b.DomainName = want.domain
+	}
+	if src.Bool(1, 2, "workdir") {
+		want.cwd = src.Pick("workdirv", "/tmp", "/w")
+		b.WorkDir = want.cwd
+	}
+	vec := fmt.Sprintf("credgen=%v cuid=%d cgid=%d host=%q domain=%q workdir=%q", b.CredGenerator != nil, b.ContainerUID, b.ContainerGID, b.HostName, b.DomainName, b.WorkDir)
+	c.Logf("container: %s", vec)
+	c.Event("c04container:" + fmt.Sprintf("%v/%v/%v/%v/%v/%v", b.CredGenerator != nil, b.ContainerUID != 0, b.ContainerGID != 0, b.HostName != "", b.DomainName != "", b.WorkDir))
+	c.MarkNonTrivial()
+	env, err := kBuildRetry(&b)
+	if err != nil {
+		return vcore.Violate(prop, "launch_refused", "container/build", "Build failed for %s: %v", vec, err)
+	}
+	defer env.Destroy()
+	ct := &kContainer{env: env, rootDir: root, probe: "/probe/" + filepath.Base(probePath)}
+	e := &kExec{script: []string{"state", "grow", "/tmp/owner", "1", "exit", "7"}}
+	withFilter := src.Bool(1, 2, "filter")
+	if withFilter {
+		e.filter = kFilterAllowAllBut(nil, nil)
+	}
+	var res runner.Result
+	var out *kOut
+	if !watchdog(60*time.Second, func() { res, out = ct.exec(context.Background(), e) }) {
+		return vcore.Violate(prop, "hang", "container", "Execve did not return (%s)", vec)
+	}
+	if res.Status != runner.StatusNonzeroExitStatus || res.ExitStatus != 7 {
+		return vcore.Violate(prop, "launch_refused", "container/execve", "the program did not run (%s): %s exit=%d %q", vec, statusName(res.Status), res.ExitStatus, res.Error)
+	}
+	lines := out.Lines()
+	get := func(k string) []string { return field(lines, k) }
+	num := func(f []string, i int) int64 {
+		if i >= len(f) {
+			return -1 << 40
+		}
+		v, err := strconv.ParseInt(f[i], 0, 64)
+		if err != nil {
+			u, _ := strconv.ParseUint(strings.TrimPrefix(f[i], "0x"), 16, 64)
+			return int64(u)
+		}
+		return v
+	}
+	uid, gid := get("uid"), get("gid")
+	if len(uid) < 3 || len(gid) < 3 {
+		return vcore.Violate(prop, "program_did_not_run", "container", "no state report (%s): %v", vec, lines)
+	}
+	site := "container"
+	for i := 0; i < 3 && b.CredGenerator != nil; i++ {
+		if want.cUID != 0 && num(uid, i) != int64(want.cUID) {
+			return vcore.Violate(prop, "ids", site, "uid %v inside the container, requested %d (%s)", uid, want.cUID, vec)
+		}
+		if want.cGID != 0 && num(gid, i) != int64(want.cGID) {
+			return vcore.Violate(prop, "ids", site, "gid %v inside the container, requested %d (%s)", gid, want.cGID, vec)
+		}
+	}
+	if want.hostUID >= 0 {
+		// seen from outside, the program's files belong to the ids the credential generator handed out
+		var st syscall.Stat_t
+		p := fmt.Sprintf("/proc/%d/root/tmp/owner", containerInitPid(ct))
+		if err := syscall.Lstat(p, &st); err != nil {
+			return vcore.Violate(prop, "program_did_not_run", site, "the program's file cannot be seen from outside (%s): %v; report %v", vec, err, get("grew"))
+		}
+		if int(st.Uid) != want.hostUID || int(st.Gid) != want.hostGID {
+			return vcore.Violate(prop, "ids", site, "the program ran as host ids %d:%d (owner of the file it created), the credential generator gave %d:%d (%s; inside: uid %v gid %v)", st.Uid, st.Gid, want.hostUID, want.hostGID, vec, uid, gid)
+		}
+		if g := get("groups"); len(g) > 0 && num(g, 0) > 0 {
+			for i := 1; i < len(g); i++ {
+				if num(g, i) == 0 {
+					return vcore.Violate(prop, "groups", site, "supplementary groups %v contain the container's root group (%s)", g, vec)
+				}
+			}
+		}
+	}
+	if f := get("caps"); len(f) < 4 || num(f, 1) != 0 || num(f, 2) != 0 || num(f, 3) != 0 {
+		return vcore.Violate(prop, "caps", site, "capability sets not empty: %v (%s)", f, vec)
+	}
+	if f := get("securebits"); len(f) < 1 || num(f, 0)&1 == 0 {
+		return vcore.Violate(prop, "securebits", site, "SECBIT_NOROOT not set: %v (%s)", f, vec)
+	}
+	if f := get("nnp"); len(f) < 1 || num(f, 0) != 1 {
+		return vcore.Violate(prop, "nnp", site, "no_new_privs is %v (%s)", f, vec)
+	}
+	wantMode := int64(0)
+	if withFilter {
+		wantMode = 2
+	}
+	if f := get("seccomp"); len(f) < 1 || num(f, 0) != wantMode {
+		return vcore.Violate(prop, "seccomp", site, "seccomp mode %v, filter given: %v (%s)", f, withFilter, vec)
+	}
+	if f := get("pid"); len(f) < 5 || f[0] != f[4] {
+		return vcore.Violate(prop, "session", site, "the program is not the leader of its own session: %v (%s)", f, vec)
+	}
+	if f := get("cwd"); want.cwd != "" && (len(f) < 1 || f[0] != want.cwd) {
+		return vcore.Violate(prop, "cwd", site, "working directory %v, requested %s (%s)", f, want.cwd, vec)
+	}
+	if f := get("host"); want.host != "" && (len(f) < 1 || f[0] != want.host) {
+		return vcore.Violate(prop, "hostname", site, "host name %v, requested %s (%s)", f, want.host, vec)
+	}
+	if f := get("domain"); want.domain != "" && (len(f) < 1 || f[0] != want.domain) {
+		return vcore.Violate(prop, "domainname", site, "domain name %v, requested %s (%s)", f, want.domain, vec)
+	}
+	c.Probe("container_state_checked")
+	return nil
+}
